@@ -195,6 +195,68 @@ func main() {
 `}
 		r["bondgo-swallows-go-value-arg"] = kc{"bondgo", c, func() pbt.Outcome { return propGo(c) }}
 	}
+	// 7. regression (passes on the repaired tree): a hybrid processor whose ROM and RAM code share opcodes; the opcode
+	// list is the duplicate-free union, the architecture holds what the RAM code names (r5, i2, o3)
+	{
+		cp := unknownCP()
+		cp.MaxReg, cp.MaxOut, cp.Instr, cp.Data, cp.MaxJump = 1, 0, 4, 0, 0
+		cp.Mode, cp.RamInstr, cp.RamMaxReg, cp.RamMaxIn, cp.RamMaxOut = "hy", 6, 5, 2, 3
+		cp.RamOps = []string{"i2r", "inc", "j", "r2o", "rset", "sub"}
+		c := oneCP(`%section code .romtext iomode:async
+	entry start
+start:
+	clr r0
+	rset r1, 3
+	r2o r0, o0
+	j start
+%endsection
+%section code_ram .ramtext iomode:async
+	entry rstart
+rstart:
+	inc r0
+	rset r5, 7
+	i2r r0, i2
+	r2o r0, o3
+	sub r0, r1
+	j rstart
+%endsection
+%meta cpdef cp0 romcode: code, ramcode: code_ram, execmode: hy
+`+knownTail, cp, 8, 1)
+		c.Probe = false
+		r["hybrid-shared-opcodes"] = kc{"basm_sources", c, func() pbt.Outcome { return propBasm(c) }}
+	}
+	// 8. regression: a register size the compiler has no type for; machine and processors agree
+	{
+		c := GoCase{Rsize: 12, Mpm: true, Src: `package main
+
+import (
+	"bondgo"
+)
+
+func w1() {
+	var outw bondgo.Output
+	var reg_p uint8
+	outw = bondgo.Make(bondgo.Output, 2)
+	for {
+		reg_p++
+		bondgo.IOWrite(outw, reg_p)
+	}
+}
+
+func main() {
+	var out1 bondgo.Output
+	var reg_a uint8
+	out1 = bondgo.Make(bondgo.Output, 1)
+	reg_a = 1
+	go w1()
+	for {
+		bondgo.IOWrite(out1, reg_a)
+		reg_a++
+	}
+}
+`}
+		r["bondgo-odd-register-size"] = kc{"bondgo", c, func() pbt.Outcome { return propGo(c) }}
+	}
 	return r
 }
 
